@@ -256,15 +256,27 @@ static void jitter(void)
 }
 
 /* pre-hook for a state-changing call; returns: 0 proceed, 1 proceed then die, 2 short write then die */
+static volatile int paused;
+
 static int sc_pre(const char *op, const char *path)
 {
-	long k = sc_count++;
+	long k;
+	/* while one thread is held at the pause point no other thread of this process changes any state */
+	while (paused) { pthread_mutex_unlock(&mu); usleep(500); pthread_mutex_lock(&mu); }
+	k = sc_count++;
 	(void)op; (void)path;
 	if (pause_k >= 0 && k == pause_k && pause_file) {
 		struct stat st;
+		char wp[4200];
+		int wf;
+		paused = 1;
 		pthread_mutex_unlock(&mu);
+		snprintf(wp, sizeof wp, "%s.waiting", pause_file);
+		wf = r_open(wp, O_WRONLY | O_CREAT, 0644);
+		if (wf >= 0) r_close(wf);
 		while (syscall(SYS_stat, pause_file, &st) != 0) usleep(1000);
 		pthread_mutex_lock(&mu);
+		paused = 0;
 	}
 	if (kill_k >= 0 && k == kill_k) {
 		if (kill_mode == 0) { trace("KILL-before", path, 0, 0, k); _exit(137); }
